@@ -3,11 +3,14 @@
 pub mod c01;
 pub mod c02;
 pub mod c03;
+pub mod c04;
 pub mod c05;
 pub mod c07;
 pub mod c08;
 pub mod c09;
 pub mod c10;
+pub mod c11;
+pub mod c12;
 pub mod c13;
 pub mod c14;
 pub mod c15;
@@ -22,12 +25,15 @@ pub fn run(args: &Args) -> Report {
         "C01" => c01::run(args),
         "C02" => c02::run(args),
         "C03" => c03::run(args),
+        "C04" => c04::run(args),
         "C05" => c05::run(args),
         "C06" => c05::run_c06(args),
         "C07" => c07::run(args),
         "C08" => c08::run(args),
         "C09" => c09::run(args),
         "C10" => c10::run(args),
+        "C11" => c11::run(args),
+        "C12" => c12::run(args),
         "C13" => c13::run(args),
         "C14" => c14::run(args),
         "C15" => c15::run(args),
